@@ -15,7 +15,7 @@ LEVEL_NOTE = 'trusted: vlib/oracles/ref.py interpolation; vlib/sim.py'
 TIMEOUT = {'quick': 1500, 'thorough': 12000}
 
 from vlib.runner import config_name
-Q_CONFIGS = [(3, 1, False), (3, 1, True), (4, 1, False), (5, 1, True), (5, 2, False), (5, 2, True), (6, 2, False), (7, 3, True), (7, 2, False)]
+Q_CONFIGS = [(3, 1, False), (3, 1, True), (4, 1, False), (5, 1, True), (5, 1, False), (5, 2, False), (5, 2, True), (6, 2, False), (7, 3, True), (7, 2, False)]
 
 
 def shards(tier, seed):
@@ -180,7 +180,7 @@ def run(shard, rec):
                 await mpc.barrier()
                 return [(type(a).order, int(a.value)) for a in sh], [int(a) for a in opened]
         else:
-            q = rng.choice([101, 257, 2**31 - 1, 11, 7])
+            q = rng.choice([101, 257, 2**31 - 1, 11, 7, 65537, 2**64 - 59, 13])          # primes = 1 and = 3 mod 4 (random bits use a square root in the former)
             if q <= m:
                 q = 101
             vals = [rng.randrange(q) for _ in range(3)]
@@ -191,12 +191,14 @@ def run(shard, rec):
                 secfld = mpc.SecFld(spec['q'])
                 xs = [mpc.input(secfld(v if pid == i % len(mpc.parties) else 0), senders=i % len(mpc.parties)) for i, v in enumerate(spec['vals'])]
                 nodes = xs + [xs[0] * xs[1], xs[0] * xs[1] + xs[2], xs[2] ** 3, xs[0] == xs[1]]
+                rb = mpc.random_bits(secfld, 3)              # observed through the hook on random_bits: consistent degree-t sharings of 0/1 at all parties
+                await mpc.gather(rb)
                 sh = await mpc.gather(nodes)
                 await mpc.barrier()
                 return [(type(a).order, int(a.value)) for a in sh]
         if not rec.wants(case):
             continue
-        w = sim.World(m, t, no_prss, seed=sseed, policy=policy).run(program)
+        w = sim.World(m, t, no_prss, seed=sseed, policy=policy, history='auto', on_observed=calls.clear).run(program)
         rec.count('programs_run')
         res = w.ok_results()
         what0 = f'{shard["name"]} {kind} program {pi}'
